@@ -1,5 +1,5 @@
 import EdpVerif.Impl.Send
-import EdpVerif.Generated.Misc
+import EdpVerif.Generated.MiscC17
 /-!
 The term-level part of the remote calls of crates/edp_node/src/node.rs, crates/edp_node/src/erlang_mod_fns.rs and
 `OwnedTerm::into_rex_response` (crates/erltf/src/term.rs):
